@@ -2151,10 +2151,14 @@ func (r *Raft) preElectSelf() <-chan *preVoteResult {
 
 // persistVote is used to persist our vote for safety.
 func (r *Raft) persistVote(term uint64, candidate []byte) error {
-	if err := r.stable.SetUint64(keyLastVoteTerm, term); err != nil {
+	// Write the candidate before the term: the term is what requestVote
+	// compares against to recognise a vote already cast, so it must be the
+	// last write. A crash or store error in between then leaves a record of
+	// an older term, never the new term paired with a stale candidate.
+	if err := r.stable.Set(keyLastVoteCand, candidate); err != nil {
 		return err
 	}
-	if err := r.stable.Set(keyLastVoteCand, candidate); err != nil {
+	if err := r.stable.SetUint64(keyLastVoteTerm, term); err != nil {
 		return err
 	}
 	return nil
